@@ -8,7 +8,7 @@ libmir-<variant>-<hash>/libmir.so   mir.c + mir-gen.c + c2mir/c2mir.c, -DNDEBUG 
 import os, hashlib, subprocess, shutil, glob, time
 
 WRAPS = ['malloc', 'calloc', 'realloc', 'free', 'strdup', 'mmap', 'munmap', 'mprotect', 'time', 'localtime_r',
-         'localtime', 'gettimeofday', 'clock_gettime', 'getenv']
+         'localtime', 'gettimeofday', 'clock_gettime', 'getenv', 'exit']
 
 
 class BuildError(Exception):
@@ -65,7 +65,8 @@ def cflags(variant):
 def build_libmir(repo, verif, variant):
     cache = os.path.join(verif, '.cache')
     rh = repo_hash(repo)
-    d = os.path.join(cache, 'libmir-%s-%s' % (variant, rh))
+    wk = hashlib.sha256((','.join(WRAPS) + ' '.join(cflags(variant))).encode()).hexdigest()[:6]
+    d = os.path.join(cache, 'libmir-%s-%s%s' % (variant, rh, wk))
     so = os.path.join(d, 'libmir.so')
     if os.path.exists(so):
         os.utime(d)
